@@ -6,9 +6,10 @@
 (* (ModelStoreEnum).                                                       *)
 (***************************************************************************)
 EXTENDS ModelStore
+CONSTANT Depth      \* 1: one case call per history;  2: additionally the histories with two case calls
 
 TrueE == CE(BV(TRUE))
-ConstVals == {TrueE, CE(Z(2)), CE(Z(5)), CE(NV(7, 2)), CE(Z(9))}
+ConstVals == {TrueE, CE(Z(2)), CE(Z(5)), CE(Q(7, 2)), CE(Z(9))}
 ObjVals   == {ObjE(Decl.objects[i].name) : i \in DOMAIN Decl.objects}
 FluVals   == {FlE("g_" \o n) : n \in Range(TypeNames)}
 ParVals   == {ParE("p_" \o n) : n \in Range(TypeNames)}
@@ -20,9 +21,16 @@ G(n) == "g_" \o n
 \* a canonical compatible constant per target type
 Good(n) == CASE n = "bool" -> TrueE
              [] n = "int03" -> CE(Z(2))
-             [] n \in {"real", "real05"} -> CE(NV(7, 2))
+             [] n \in {"real", "real05"} -> CE(Q(7, 2))
              [] n \in {"T", "T1"} -> ObjE("oT1")
              [] n = "U" -> ObjE("oU")
+\* a second compatible constant (differs from Good where the type has two values in the menu)
+Good2(n) == CASE n = "bool" -> CE(BV(FALSE))
+              [] n = "int03" -> CE(Z(3))
+              [] n \in {"real", "real05"} -> CE(Z(2))
+              [] n = "T" -> ObjE("oT")
+              [] n = "T1" -> ObjE("oT1")
+              [] n = "U" -> ObjE("oU")
 Other(n) == IF n = "bool" THEN "g_U" ELSE "g_bool"
 Conts == {"inst", "dur", "timed"}
 Kinds == {"assign", "inc", "dec"}
@@ -31,13 +39,14 @@ Kinds == {"assign", "inc", "dec"}
 H(call, n, j, steps) == [call |-> call, tt |-> n, j |-> j, steps |-> steps]
 P0 == NewProblem(TNone, ENone)
 \* Problem(initial_defaults={t: e}); then the default reaches a new fluent of type t, not one of
-\* another type, and an explicit per-fluent default wins
+\* another type, an explicit per-fluent default wins, and an explicit initial value wins over both
 HTDefault(n, e) == H("new_problem", n, 1,
-   << NewProblem(TypeByName(n), e), AddFluent(F(n), ENone), AddFluent(Other(n), ENone), AddFluent(G(n), Good(n)) >>)
+   << NewProblem(TypeByName(n), e), AddFluent(F(n), ENone), AddFluent(Other(n), ENone), AddFluent(G(n), Good(n)),
+      SetInit(F(n), Good2(n)) >>)
 \* add_fluent(f, default_initial_value=e) on a problem that already stores something
 HDefault(n, e) == H("add_fluent", n, 4,
    << P0, AddFluent(Other(n), ENone), SetInit(Other(n), Good(IF n = "bool" THEN "U" ELSE "bool")),
-      AddFluent(F(n), e), AddFluent(G(n), Good(n)) >>)
+      AddFluent(F(n), e), AddFluent(G(n), Good(n)), SetInit(G(n), Good2(n)) >>)
 \* set_initial_value(f, e) on a fluent without / with a previous value
 HSetInit(n, e) == H("set_init", n, 4,
    << P0, AddFluent(Other(n), ENone), AddFluent(F(n), ENone),
@@ -59,4 +68,29 @@ Histories ==
    \cup UNION {{HEffect(c, k, n, e) : n \in Targets, e \in Vals} : c \in {"inst", "dur"}, k \in Kinds}
    \cup UNION {{HTimed(k, n, e) : n \in Targets, e \in Vals} : k \in Kinds}
    \cup {HInstance(n, e) : n \in Targets, e \in Vals}
+
+\* ---------- two case calls in a row (Depth = 2): acceptance does not depend on what an earlier,
+\* possibly rejected, call of the same kind did; a rejected call leaves a non-trivial model unchanged
+Vals2(n) == {Good2(n), IF n = "bool" THEN CE(Z(2)) ELSE TrueE, FlE(G(n)), CE(Z(9))}
+H2TDefault(n, e, e2) == H("new_problem", n, 1,
+   << NewProblem(TypeByName(n), e), AddFluent(F(n), e2), AddFluent(G(n), ENone), SetInit(G(n), e2) >>)
+H2Default(n, e, e2) == H("add_fluent", n, 3,
+   << P0, AddFluent(Other(n), Good(IF n = "bool" THEN "U" ELSE "bool")), AddFluent(F(n), e), AddFluent(G(n), e2),
+      SetInit(F(n), Good2(n)) >>)
+H2SetInit(n, e, e2) == H("set_init", n, 5,
+   << P0, AddFluent(F(n), Good(n)), AddFluent(G(n), ENone), SetInit(F(n), Good2(n)),
+      SetInit(F(n), e), SetInit(F(n), e2), SetInit(G(n), e) >>)
+H2Effect(c, k, n, e, e2) == H("add_effect:" \o c \o ":" \o k, n, 1,
+   << AddEffect(c, k, F(n), e), AddEffect(c, k, G(n), e2), AddEffect(c, "assign", Other(n), Good(IF n = "bool" THEN "U" ELSE "bool")) >>)
+H2Timed(k, n, e, e2) == H("add_effect:timed:" \o k, n, 4,
+   << P0, AddFluent(F(n), ENone), AddFluent(G(n), ENone),
+      AddEffect("timed", k, F(n), e), AddEffect("timed", k, G(n), e2) >>)
+H2Instance(n, e, e2) == H("instance", n, 2, << Instance(TypeByName(n), Good(n)), Instance(TypeByName(n), e), Instance(TypeByName(n), e2) >>)
+Histories2 ==
+   UNION {{H2TDefault(n, e, e2) : e \in Vals, e2 \in Vals2(n)} \cup {H2Default(n, e, e2) : e \in Vals, e2 \in Vals2(n)}
+          \cup {H2SetInit(n, e, e2) : e \in Vals, e2 \in Vals2(n)} \cup {H2Instance(n, e, e2) : e \in Vals, e2 \in Vals2(n)}
+          \cup UNION {{H2Effect(c, k, n, e, e2) : e \in Vals, e2 \in Vals2(n)} : c \in {"inst", "dur"}, k \in Kinds}
+          \cup UNION {{H2Timed(k, n, e, e2) : e \in Vals, e2 \in Vals2(n)} : k \in Kinds}
+          : n \in Targets}
+HistSet == IF Depth = 1 THEN Histories ELSE Histories \cup Histories2
 =============================================================================
